@@ -24,7 +24,7 @@ import sys
 import types
 import urllib.parse
 
-SRC = "/repo/interceptors/lunar-py-interceptor/lunar_interceptor/src"
+SRC = os.environ.get("VERIF_REPO", "/repo") + "/interceptors/lunar-py-interceptor/lunar_interceptor/src"
 PKG = SRC + "/lunar_interceptor"
 
 
